@@ -73,6 +73,55 @@ pub fn gen() -> Vec<Value> {
     out
 }
 
+/// Vectors with special VALUES (recorded from the same pinned release): a commitment that is the identity point (value 0
+/// under all-zero blindings) at some position, all-zero and all-one values, seeds that are the zero scalar, one and the
+/// largest canonical scalar, promises equal to the value at every position.
+pub fn gen_special() -> Vec<Value> {
+    let mut out = vec![];
+    let mut i = 1000usize;
+    for &(n, m, cap, t) in &[(8usize, 1usize, 1usize, 1usize), (64, 1, 1, 2), (8, 4, 4, 1), (32, 4, 8, 2), (64, 2, 2, 6), (2, 8, 8, 1), (16, 1, 2, 3)] {
+        for kind in ["identity", "zeros", "ones", "seed0", "seed1", "seedmax", "promeq"] {
+            if kind.starts_with("seed") && m != 1 {
+                continue;
+            }
+            i += 1;
+            let pc = create_pedersen_gens_with_extension_degree(ExtensionDegree::try_from(t).unwrap());
+            let params = RangeParameters::<P>::init(n, cap, pc).unwrap();
+            let maxv = if n == 64 { u64::MAX } else { (1u64 << n) - 1 };
+            let vals: Vec<u64> = (0..m).map(|j| match kind {
+                "identity" => if j == m - 1 { 0 } else { maxv / 3 },
+                "zeros" => 0,
+                "ones" => maxv,
+                _ => maxv - (j as u64 % (maxv / 2 + 1)),
+            }).collect();
+            let proms: Vec<Option<u64>> = (0..m).map(|j| if kind == "promeq" { Some(vals[j]) } else if j % 2 == 1 { Some(vals[j] / 2) } else { None }).collect();
+            let blinds: Vec<Vec<Scalar>> = (0..m).map(|j| (0..t).map(|k| {
+                if kind == "identity" && j == m - 1 { Scalar::ZERO } else { hash_scalar(&[b"vector-blinding", &(i as u64).to_le_bytes(), &(j as u64).to_le_bytes(), &(k as u64).to_le_bytes()]) }
+            }).collect()).collect();
+            let cs: Vec<P> = (0..m).map(|j| params.pc_gens().commit(&Scalar::from(vals[j]), &blinds[j]).unwrap()).collect();
+            let seed = match kind {
+                "seed0" => Some(Scalar::ZERO),
+                "seed1" => Some(Scalar::ONE),
+                "seedmax" => Some(-Scalar::ONE),
+                "identity" if m == 1 => Some(hash_scalar(&[b"vector-seed", &(i as u64).to_le_bytes()])),
+                _ => None,
+            };
+            let label = format!("golden vector {}", i % 3);
+            let stmt = RangeStatement::init(params, cs.clone(), proms.clone(), seed).unwrap();
+            let w = RangeWitness::init((0..m).map(|j| CommitmentOpening::new(vals[j], blinds[j].clone())).collect()).unwrap();
+            let mut rng = ChaCha12Rng::seed_from_u64(1000 + i as u64);
+            let lb: &'static [u8] = Box::leak(label.clone().into_bytes().into_boxed_slice());
+            let proof = RangeProof::<P>::prove_with_rng(&mut Transcript::new(lb), &stmt, &w, &mut rng).unwrap();
+            out.push(json!({"id": i, "kind": kind, "bits": n, "aggregation": m, "capacity": cap, "degree": t, "label": label,
+                "commitments": cs.iter().map(|c| hex(c.compress().as_bytes())).collect::<Vec<_>>(),
+                "promises": proms, "seed": seed.map(|s| hex(s.as_bytes())),
+                "proof": hex(&proof.to_bytes()),
+                "mask": if seed.is_some() { Some(blinds[0].iter().map(|b| hex(b.as_bytes())).collect::<Vec<_>>()) } else { None }}));
+        }
+    }
+    out
+}
+
 /// returns mismatch descriptions
 pub fn check(vectors: &[Value], cap_shift: usize) -> Vec<String> {
     let mut bad = vec![];
